@@ -97,6 +97,8 @@ pub fn serialise(recs: &[Rec], c: &Container) -> Vec<u8> {
             for (i, m) in members.iter().enumerate() {
                 let part: &[u8] = if i + 1 == n {
                     rest
+                } else if let Some(x) = m.exact {
+                    &rest[..x.min(rest.len())]
                 } else {
                     let cut = ((m.cut as usize) * (rest.len() + 1)) >> 16;
                     &rest[..cut]
